@@ -44,7 +44,7 @@ def _args(fn: ast.FunctionDef, want: List[str], where: str):
 def _ret_bool(e: ast.AST, where: str) -> str:
     """the value returned by the loopback branch"""
     if isinstance(e, ast.Constant) and isinstance(e.value, bool):
-        return f"PProg.retConst {'true' if e.value else 'false'}"
+        return f"(PProg.retConst {'true' if e.value else 'false'})"
     if (isinstance(e, ast.Call) and ast.unparse(e.func) in ("any", "all") and len(e.args) == 1 and not e.keywords
             and isinstance(e.args[0], ast.GeneratorExp) and len(e.args[0].generators) == 1):
         g = e.args[0].generators[0]
